@@ -372,6 +372,7 @@ pub fn run_c20(tier: Tier) -> i32 {
         e.traders = T2.to_vec();
         exps.push(e);
     }
+    crate::props::engprops::push_dec9(&mut exps, 1, false);
     run_exps(&mut run, step_c20_any, exps, |_| {});
     // (b) configuration bounds: at 6 decimals, and at 9 decimals with the same boundary values in raw units
     let mut exps = vec![];
